@@ -283,15 +283,18 @@ func c20Concurrent(c *Ctx) {
 func c20Middleware(c *Ctx) {
 	for rd := 0; rd < c.N(10, 100); rd++ {
 		max := c.Rng.Range(0, 6)
-		il, _ := app.NewIPRequestLimiter(max, time.Hour, time.Now(), "192.168.5.0/24", "")
+		il, _ := app.NewIPRequestLimiter(max, time.Hour, time.Now(), "192.168.5.0/24,2001:db8:ffff::/48", "")
 		called := 0
 		h := app.NewLimiterMiddleware("X-Lim", il)(http.HandlerFunc(func(w http.ResponseWriter, r *http.Request) { called++ }))
 		cnt := map[string]int{}
 		for k := 0; k < 25; k++ {
-			ip := c.Rng.PickS("1.2.3.4", "5.6.7.8", "192.168.5.9")
+			// (IPv6 too: addresses that differ in the last group only, all-digit and hexadecimal groups, a white-listed one)
+			ip := c.Rng.PickS("1.2.3.4", "5.6.7.8", "192.168.5.9", "2001:db8::1", "2001:db8::2", "2001:db8::25", "2001:db8::a", "2001:db8:ffff::10", "::1", "1.2.3.40")
 			req := httptest.NewRequest("GET", "/x", nil)
 			if c.Rng.Bool() {
 				req.Header.Set("X-Forwarded-For", ip)
+			} else if strings.Contains(ip, ":") {
+				req.RemoteAddr = "[" + ip + "]:1234"
 			} else {
 				req.RemoteAddr = ip + ":1234"
 			}
@@ -299,7 +302,7 @@ func c20Middleware(c *Ctx) {
 			before := called
 			h.ServeHTTP(rec, req)
 			cnt[ip]++
-			wl := strings.HasPrefix(ip, "192.168.5.")
+			wl := strings.HasPrefix(ip, "192.168.5.") || strings.HasPrefix(ip, "2001:db8:ffff:")
 			wantPass := wl || cnt[ip] <= max
 			wantMax := max
 			if wl {
